@@ -64,6 +64,9 @@ where
         } else {
             let mut q = q.clone();
             for cond in q.queries_mut() {
+                // the first expression initialises the accumulated result; an empty
+                // intermediate result is a result, not "no constraint yet"
+                let mut is_first = true;
                 for expr in cond.conds().clone().iter() {
                     let mut result = HashSet::new();
                     for (k, v) in db.iter() {
@@ -78,7 +81,12 @@ where
                             result.insert(k.as_bytes().to_vec().into_boxed_slice());
                         }
                     }
-                    cond.calc(&result);
+                    if is_first {
+                        cond.result = result;
+                        is_first = false;
+                    } else {
+                        cond.calc(&result);
+                    }
                 }
             }
 
@@ -171,18 +179,10 @@ impl Cond {
     pub fn calc(&mut self, v: &HashSet<Box<[u8]>>) {
         match self.r#type {
             CondType::And => {
-                if self.result.is_empty() {
-                    self.result = v.clone();
-                } else {
-                    self.result = self.result.intersection(v).cloned().collect::<HashSet<_>>()
-                }
+                self.result = self.result.intersection(v).cloned().collect::<HashSet<_>>()
             }
             CondType::Or => {
-                if self.result.is_empty() {
-                    self.result = v.clone();
-                } else {
-                    self.result = self.result.union(v).cloned().collect::<HashSet<_>>()
-                }
+                self.result = self.result.union(v).cloned().collect::<HashSet<_>>()
             }
         }
     }
